@@ -820,6 +820,10 @@ where
             // TODO(soon): check_sane
             let mut lock = ps_ref.borrow().new_lock(fid);
             let mut backoff = Duration::from_millis(100);
+            // wait_all() can return without leaving us a token (the top-level
+            // self-test gives it up), and starting a job requires one.  Get
+            // it now, while we hold no lock.
+            server.ensure_token_or_cheat(t.as_str(), &mut cheat).await?;
             lock.try_lock()?;
             while !lock.is_owned() {
                 // Don't spin with 100% CPU while we fight for the lock.
